@@ -3,7 +3,8 @@
 From Coq Require Import List NArith ZArith Arith Bool Lia ZifyN ZifyNat ZifyBool Sorted.
 From RT Require Import Model.Bytes Model.Result Model.Varint Model.KeyCodec Model.Records
   Model.RecCodec Model.Block Model.Crc32 Model.Writer Model.Reader.
-From RT Require Import Proofs.BytesProofs Proofs.CodecProofs Proofs.BlockInitEq Proofs.BlockProofs.
+From RT Require Import Proofs.BytesProofs Proofs.CodecProofs Proofs.BlockInitEq Proofs.BlockProofs
+  Proofs.WriterGuard.
 Import ListNotations.
 Local Open Scope N_scope.
 
@@ -682,7 +683,7 @@ Section TableW.
           w_log st' = (if T =? typ_log then bump (w_log st) (N.of_nat (length (layout (cs0 ++ sec))))
                        else w_log st))).
   Proof.
-    intros T st cs0 sec cur L r st' S HT Hr H. unfold w_add in H.
+    intros T st cs0 sec cur L r st' S HT Hr H. apply w_add_ok_core in H; unfold w_add_core in H.
     destruct (bytes_ltb (w_last_key st) (rec_key r)); cbn [negb] in H; [|discriminate].
     set (st0 := set_last_key st (rec_key r)) in *.
     assert (S0 : SI T st0 cs0 sec cur L) by (eapply SI_frame; [..|exact S]; reflexivity).
